@@ -16,6 +16,7 @@ the logical bytes.  `evs` = `w<len>`/`f` list, `c<k>` (pieces of k), or `-`.  `e
 `script` = `N` (next until terminal) | `n` | `c` (cancel, request) | `k` (cancel, notify) | `q` (a `next`
 parked on a gated producer + `cancel` from elsewhere while it is parked: prints `* ack`).
 `conc <idx> <srv> <chunk> <depth> <n> <rounds> <L>`: n clients open simultaneously, per round.
+`cnext <idx> <srv> <chunk> <depth> <k> <stream> <evs> <aux>`: k connections pull ONE stream concurrently.
 `aux` is the harness's replay recipe (ignored here).
 `duo <idx> <srv> <kind> <chunk> <depth> <streamA> <evsA> <endA> <streamB> <evsB> <endB> <script> <auxA> <auxB>`:
 two streams open at once (uncompressed); script `a|b` (one next), `A|B` (drain), `x|y` (cancel).
@@ -123,7 +124,9 @@ def channelAgrees (d : Nat) (p : Policy) (msgs : List Msg) : Bool :=
   let key : PullRes → Nat × Nat × UInt64 := fun
     | .ok (c, l) => (c.length, if l then 1 else 0, fnv c)
     | .error _ => (0, 2, 0)
-  viaChannel.map key == direct.map key
+  -- and the arms of `Session::pull` as extracted from the current source (`C09.pull_source_form`)
+  let arms := pullAllA Gen.svsPull (msgs.length + 2) { rx := msgs }
+  viaChannel.map key == direct.map key && arms.map key == direct.map key
 
 def raw (idx kind comp chunk depth speed stream evs end_ script : String) : String :=
   let F := Gen.svsFacts
@@ -250,12 +253,33 @@ def conc (idx chunk n rounds L : String) : String :=
   let rs := (List.range (natOf rounds)).map fun j => concRound F (natOf chunk) (natOf n) (natOf L) j
   joinSp ([idx, "conc", if rs.all (·.1) then "distinct" else "same"] ++ (rs.map (·.2)).flatten)
 
+/-- `cnext`: `k` connections issue `next` on ONE stream concurrently until each sees `last` or an error.
+Which request gets which chunk is up to the schedule; the multiset of chunk responses is not
+(`C09.concurrent_next`): printed sorted. -/
+def cnext (idx chunk stream evs : String) : String :=
+  let F := Gen.svsFacts
+  match parseStream stream with
+  | some (data, known) =>
+    match parseEvs evs data with
+    | some evl =>
+      match produce F (natOf chunk) evl .ok with
+      | some msgs =>
+        let (sv, id) := ({} : Server).open msgs
+        let (_, rs) := drainNext F id (msgs.length + 2) sv []
+        let toks := (rs.filter fun r => match r with | .error => false | _ => true).map (showResp known)
+        let sorted := (toks.toArray.qsort (fun a b => a < b)).toList
+        joinSp ([idx, "cnext"] ++ sorted)
+      | none => idx ++ " diverges"
+    | none => idx ++ " bad-op"
+  | none => idx ++ " bad-op"
+
 def step (st : Unit) (ws : List String) : Unit × String :=
   match ws with
   | ["raw", idx, _srv, kind, comp, chunk, depth, speed, stream, evs, end_, script, _aux] =>
     (st, raw idx kind comp chunk depth speed stream evs end_ script)
   | ["hl", idx, _srv, client, puller, kind, comp, chunk, _depth, stream, evs, end_, _aux] =>
     (st, hl idx client puller kind comp chunk stream evs end_)
+  | ["cnext", idx, _srv, chunk, _depth, _k, stream, evs, _aux] => (st, cnext idx chunk stream evs)
   | ["conc", idx, _srv, chunk, _depth, n, rounds, L] => (st, conc idx chunk n rounds L)
   | ["duo", idx, _srv, kind, chunk, _depth, sa, ea, enda, sb, eb, endb, script, _auxa, _auxb] =>
     (st, duo idx kind chunk sa ea enda sb eb endb script)
